@@ -175,6 +175,8 @@ def aworldWith (methods : Fn → List AV → M AV) : World M AV where
   setItem := aSetItem
   iter _ := throw "TypeError"
   unstar _ := throw "TypeError"
+  format _ := throw "TypeError"
+  concat _ := throw "TypeError"
   other _ := throw "Unsupported"
   throw cls := throw cls
   rethrow := throw "reraise"
